@@ -186,6 +186,20 @@ def get_units():
     for kind in ('socket', 'rtu', 'ascii', 'binary'):
         us.append(Unit('%s/framer.private.%s' % (PROP, kind), private_state(kind), [PROP],
                        functions=[F.QUAL[kind] + '.' + m for m in ('__init__', 'checkFrame', 'advanceFrame', 'resetFrame')]))
+    # same acceptance: every front-end hands its framer exactly the hosted units (+0 under broadcast where the option exists), so a request
+    # for an absent unit meets the same fate - dropped by the framer - on all of them
+    from . import C10 as _C10
+    for fe in S.FRONTENDS:
+        if fe.startswith('twisted'):
+            fnq = S.TW + ('ModbusTcpProtocol.dataReceived' if fe.endswith('tcp') else 'ModbusUdpProtocol.datagramReceived')
+            us.append(Unit('%s/unit_list.%s' % (PROP, fe), _C10.unit_list(fe), [PROP], functions=[fnq]))
+        elif S.FRONTENDS[fe][2]:
+            hq = (S.FRONTENDS[fe][0] if fe.startswith('sync') else S.AIO + 'ModbusBaseRequestHandler') + '.handle'
+            from pyvc.unit import LoopAnn as _LA
+            ann = _LA('serve', lambda v, j: True)
+            if fe == 'sync.udp':
+                ann.keep = ('socket', 'request')
+            us.append(Unit('%s/unit_list.%s' % (PROP, fe), _C10.unit_list(fe), [PROP], functions=[hq], loops={(hq, 0): ann}))
     from .C12 import sync_loop, asyncio_loop, twisted_entry
     from pyvc.unit import LoopAnn
     q = S.SY + 'ModbusConnectedRequestHandler.handle'
